@@ -84,6 +84,9 @@ func main() {
 
 	nCases := r.N(500, 10000)
 	r.Parallel(nCases, func(c *vk.Case) {
+		if c.Idx >= concCaseBase {
+			return // replay of a concurrent-phase case
+		}
 		rng := c.Rng
 		level := triegen.Levels[rng.Intn(len(triegen.Levels))]
 		env, err := triegen.NewEnv(level)
@@ -362,5 +365,6 @@ func main() {
 			r.Sample(map[string]interface{}{"case": c.Idx, "level": level, "commits": nCommits, "history_len": len(hist), "first_ops": hh, "last_root": vk.Hex(last.root), "last_shape": sh.String()})
 		}
 	})
+	runConcurrentPhase(r)
 	r.Finish()
 }
